@@ -12,12 +12,49 @@ import runpy
 import sys
 
 
+def run_all(repo):
+    ran, failed = 0, {}
+    for path in sorted(glob.glob(os.path.join(repo, 'docs', 'examples',
+                                              '*.py'))):
+        out = io.StringIO()
+        try:
+            with contextlib.redirect_stdout(out), \
+                    contextlib.redirect_stderr(out):
+                runpy.run_path(path, run_name='__main__')
+            ran += 1
+        except BaseException as e:      # type_error.py fails on purpose
+            failed[os.path.basename(path)] = type(e).__name__
+    return ran, failed
+
+
+def dump_mode(repo, do):
+    import trace_dump
+    rec = trace_dump.DumpRecorder()
+    rec.install()
+    ran, failed = run_all(repo)
+    rec.uninstall()
+    d = {'records': [], 'skipped': {}}
+    if os.path.exists(do):
+        with open(do) as f:
+            d = json.load(f)
+    d['records'].extend(json.loads(json.dumps(rec.records, default=repr)))
+    for k, v in rec.skipped.items():
+        d['skipped'][k] = d['skipped'].get(k, 0) + v
+    d['examples'] = {'ran': ran, 'raised': failed, 'dumps': len(rec.records)}
+    with open(do, 'w') as f:
+        json.dump(d, f)
+    print('examples: %d ran, %d dumps recorded' % (ran, len(rec.records)))
+
+
 def main():
     repo = sys.argv[1]
     import shim
     import yatiml
     import check_c07
     import trace_load
+    do = os.environ.get('VERIF_DUMP_TRACE_OUT')
+    if do:
+        return dump_mode(repo, do)
     jt = shim.JsonTracer(yatiml, check_c07.lex)
     jt.install()
     rec = trace_load.LoadRecorder()
